@@ -281,6 +281,11 @@ func c17Check(l *explore.Local, _ struct{}, c c17Case) *explore.Fail {
 		}
 	}
 	ptrs := c17Ptrs
+	if c.Mode == "on" {
+		// with the LCD on, also pointers that stay clear of FE00-FEFF whatever the program does (high RAM, work RAM): the
+		// DMG bug needs a pointer in FE00-FEFF, so with these OAM may not change in ANY cycle, mode 2 included
+		ptrs = append(append([]uint16(nil), c17Ptrs...), 0xff80, 0xfff0, 0xc080)
+	}
 	if c.Ptr != 0 {
 		ptrs = []uint16{c.Ptr}
 	}
@@ -372,6 +377,7 @@ func c17Check(l *explore.Local, _ struct{}, c c17Case) *explore.Fail {
 						for i, b := range append(append([]uint8(nil), code...), 0x18, 0xfe) { // then JR to itself
 							m.Map.Write(0xc000+uint16(i), b)
 						}
+						far := ptr < 0xfd00 || ptr >= 0xff40
 						regs := cpu.VRegs{A: 0x5a, F: 0x00, B: uint8(ptr >> 8), C: uint8(ptr), D: uint8(ptr >> 8), E: uint8(ptr), H: uint8(ptr >> 8), L: uint8(ptr), SP: ptr, PC: 0xc000}
 						m.CPU.VSet(regs)
 						m.I.Disable()
@@ -388,7 +394,7 @@ func c17Check(l *explore.Local, _ struct{}, c c17Case) *explore.Fail {
 								}
 							}
 							for k := 0; k < info.Cycles; k++ {
-								armed := lcdOn() && m.Map.Read(0xff41)&3 == 2
+								armed := lcdOn() && m.Map.Read(0xff41)&3 == 2 && !far
 								if armed {
 									judged = false // LCD on and mode 2: the OAM bug may legitimately strike
 								}
@@ -401,7 +407,7 @@ func c17Check(l *explore.Local, _ struct{}, c c17Case) *explore.Fail {
 									for i := range before {
 										if ob[i] != before[i] && (!stored[i] || (judged && ob[i] != exp[i])) {
 											f := explore.Failf("OAM altered in a machine cycle outside mode 2",
-												"mode %s, line %d tick %d, pointer %04x, program % x: in cycle %d of an instruction (LCD on: %v, STAT mode before the cycle not 2) OAM[%d] changed %02x -> %02x; no store put that value there",
+												"mode %s, line %d tick %d, pointer %04x, program % x: in cycle %d of an instruction (LCD on: %v; STAT mode before the cycle not 2, or no pointer of the program anywhere near FE00-FEFF) OAM[%d] changed %02x -> %02x; no store put that value there",
 												c.Mode, c.Line, tick, ptr, code, k+1, lcdOn(), i, before[i], ob[i])
 											f.Case = c17Case{Mode: c.Mode, Line: c.Line, From: c.From, To: c.To, Len: len(prog), Tick: tick, Prog: prog, Ptr: ptr, OnFor: c.OnFor, Pre: pre, Debug: c.Debug, Objs: c.Objs, Off: c.Off, Idle: c.Idle}
 											return f
@@ -430,7 +436,7 @@ func c17Check(l *explore.Local, _ struct{}, c c17Case) *explore.Fail {
 								}
 							}
 						}
-						if lcdOn() && m.Map.Read(0xff41)&3 == 2 {
+						if lcdOn() && m.Map.Read(0xff41)&3 == 2 && !far {
 							judged = false
 						}
 						if !judged {
